@@ -98,7 +98,10 @@ def staticStep (s : StaticState) : List String → StaticState × String
     match parseKind kind, Bytes.ofHex pfx, parseHexList exts, Bytes.ofHex target with
     | some k, some p, some es, some t =>
       if t ≠ [] ∧ ¬ okRel t then ({ s with mount := none }, "unsupported") else
-      let m : Mount := { kind := k, enc := enc = "1", pfx := p, exts := es, target := symRoot ++ t }
+      -- flags: bit 0 UseEncodedPath, bit 1 EnableCaching (no effect on what a request observes), bit 2 StrictLastSlash
+      let fl := enc.toNat?.getD 0
+      let m : Mount := { kind := k, enc := fl % 2 = 1, strict := (fl / 4) % 2 = 1, pfx := p, exts := es,
+                         target := symRoot ++ t }
       if m.supported then ({ s with mount := some m }, "ok")
       else ({ s with mount := none }, "unsupported")
     | _, _, _, _ => (s, "bad-op")
